@@ -96,7 +96,7 @@ func ghost_calls_bulkLoad() int                            { panic("ghost") }
 func ghost_ret_bulkLoad_0[K comparable, V any]() map[K]V   { panic("ghost") }
 func ghost_ret_bulkLoad_1() error                          { panic("ghost") }
 
-func ghost_chanSent[K comparable, V any](ch <-chan RefreshResult[K, V]) int { panic("ghost") }
+func ghost_chanSent[T any](ch <-chan T) int { panic("ghost") }
 func ghost_calls_Error() int                                              { panic("ghost") }
 func ghost_calls_doBulkCall() int                                         { panic("ghost") }
 func ghost_calls_getNode() int                                            { panic("ghost") }
@@ -139,6 +139,9 @@ func ghost_last_notifyDeletion_cause() DeletionCause                       { pan
 func ghost_last_runTask_t[K comparable, V any]() *task[K, V]               { panic("ghost") }
 func ghost_calls_wait() int                                                { panic("ghost") }
 func ghost_calls_bulkRefreshKeys() int                                     { panic("ghost") }
+func ghost_calls_BulkLoad() int                                            { panic("ghost") }
+func ghost_calls_newPanicError() int                                       { panic("ghost") }
+func ghost_calls_BulkReload() int                                          { panic("ghost") }
 
 // ghost_waited(c): this operation has waited for call c (so c's outcome fields are final)
 func ghost_waited[K comparable, V any](c *call[K, V]) bool { panic("ghost") }
@@ -414,7 +417,7 @@ func estOf[K comparable](s *sketch[K], k K) uint64 {
 
 //@ macro CACHEFX = $MAINT, $EVLOG, $ONDEL, $ATOMICEV, $WHOOKS, ghost_calls(*), node::expiresAt, node::refreshableAt, ghost_wgDone(*), call::wg, ghost_calls_afterWrite(), ghost_calls_afterDelete(), ghost_queued(), ghost_calls_performCleanUp(), ghost_calls_afterWriteTask(), ghost_calls_runTask(), ghost_calls_getTask(), ghost_now(), ghost_clockRead(), ghost_calls_ExpireAfterRead(), ghost_ret_ExpireAfterRead(), task::*, ghost_buffered(*)
 
-//@ macro LOADFX = $CACHEFX, call::value, call::err, call::isNotFound, ghost_calls_load(), ghost_calls_afterFinish(), ghost_calls_doCall(), ghost_calls_startCall(), ghost_loadSuccess(), ghost_loadFailure(), ghost_calls_fn(), ghost_ret_fn(), ghost_calls_Error(), ghost_calls_wait(), ghost_waited(*)
+//@ macro LOADFX = $CACHEFX, call::value, call::err, call::isNotFound, ghost_calls_load(), ghost_calls_afterFinish(), ghost_calls_doCall(), ghost_calls_startCall(), ghost_loadSuccess(), ghost_loadFailure(), ghost_calls_fn(), ghost_ret_fn(), ghost_calls_Error(), ghost_calls_wait(), ghost_waited(*), ghost_calls_newPanicError(), ghost_calls_BulkLoad(), ghost_calls_BulkReload()
 
 //@ immutable Cache.cache, cache.nodeManager, cache.hashmap, cache.evictionPolicy, cache.expirationPolicy, cache.stats, cache.clock, cache.singleflight, cache.withTime, cache.withExpiration, cache.withRefresh, cache.withEviction, cache.isWeighted, cache.withMaintenance, cache.withStats, cache.onDeletion, cache.onAtomicDeletion, cache.expiryCalculator, cache.refreshCalculator, cache.weigher, cache.executor, cache.readBuffer, cache.writeBuffer, cache.hasDefaultExecutor, policy.isWeighted, policy.sketch, policy.window, policy.probation, policy.protected, group.calls, G:hasExp, G:hasRefresh, G:hasWeight, G:hasSize, G:hasState, G:hasExpLinks, G:key, G:value, G:weight, call.key, call.isRefresh, call.isFake
 
@@ -1046,6 +1049,7 @@ func estOf[K comparable](s *sketch[K], k K) uint64 {
 
 //@ func newPanicError : C08 C10
 //@   assumed wraps the recovered value with a stack trace (runtime/debug)
+//@   counted
 //@   fresh
 //@   ensures [panic-error-nonnil] result != nil
 
@@ -1076,7 +1080,7 @@ func estOf[K comparable](s *sketch[K], k K) uint64 {
 //@   counted
 //@   panics
 //@   requires c != nil && ghost_calls_load() == 0
-//@   modifies c.value, c.err, c.isNotFound, ghost_calls_load(), ghost_calls_afterFinish(), $CACHEFX
+//@   modifies c.value, c.err, c.isNotFound, ghost_calls_load(), ghost_calls_afterFinish(), ghost_calls_newPanicError(), $CACHEFX
 //@   callback afterFinish: requires [C08:finish-after-load] cb_c == c && ghost_calls_load() == 1
 //@   callback afterFinish: modifies $CACHEFX
 //@   callback afterFinish: ensures [clock-stable] pre(ghost_clockRead()) ==> ghost_clockRead() && ghost_now() == pre(ghost_now())
@@ -1084,7 +1088,8 @@ func estOf[K comparable](s *sketch[K], k K) uint64 {
 //@   ensures [C08:loader-invoked-once] ghost_calls_load() == pre(ghost_calls_load()) + 1
 //@   ensures [C08:finish-always] ghost_calls_afterFinish() == pre(ghost_calls_afterFinish()) + 1
 //@   ensures [C10:error-recorded] c.err == err && c.isNotFound == errors.Is(err, ErrNotFound)
-//@   own-modifies c.value, c.err, c.isNotFound, ghost_calls_load()
+//@   ensures [C10:loader-outcome-recorded-unchanged] ghost_calls_newPanicError() == pre(ghost_calls_newPanicError()) ==> err == ghost_ret_load_1() && same(c.value, ghost_ret_load_0[V]())
+//@   own-modifies c.value, c.err, c.isNotFound, ghost_calls_load(), ghost_calls_newPanicError()
 
 //@ func (*call).wait : C08 C10
 //@   assumed definition of the ghost ghost_waited: sync.WaitGroup.Wait returns only after the call's Done, i.e. after its outcome fields are final
@@ -1306,7 +1311,8 @@ func estOf[K comparable](s *sketch[K], k K) uint64 {
 //@   var kstar K
 //@   requires callsInBulk != nil
 //@   requires [call-map-wf] mapHas(callsInBulk, kstar) ==> callsInBulk[kstar] != nil && same(callsInBulk[kstar].key, kstar)
-//@   modifies map callsInBulk, call::value, call::err, call::isNotFound, $CACHEFX, ghost_calls_bulkLoad(), ghost_calls_afterFinish(), ghost_visited(*)
+//@   modifies map callsInBulk, call::value, call::err, call::isNotFound, $CACHEFX, ghost_calls_bulkLoad(), ghost_calls_afterFinish(), ghost_visited(*), ghost_calls_BulkLoad(), ghost_calls_BulkReload(), ghost_calls_newPanicError()
+//@   callback bulkLoad: modifies call::value, ghost_calls_BulkLoad(), ghost_calls_BulkReload()
 //@   callback afterFinish: requires [C08:only-registered-calls-are-finished] cb_c != nil
 //@   callback afterFinish: modifies $CACHEFX
 //@   callback afterFinish: ensures [clock-stable] pre(ghost_clockRead()) ==> ghost_clockRead() && ghost_now() == pre(ghost_now())
@@ -1324,7 +1330,7 @@ func estOf[K comparable](s *sketch[K], k K) uint64 {
 //@   ensures [C10:bulk-error-reaches-every-call] err != nil && pre(mapHas(callsInBulk, kstar)) ==> callsInBulk[kstar].err == err && !callsInBulk[kstar].isNotFound
 //@   ensures [C10:bulk-supplied-value-recorded] err == nil && pre(mapHas(callsInBulk, kstar)) && mapHas(ghost_ret_bulkLoad_0[K, V](), kstar) ==> same(callsInBulk[kstar].value, ghost_ret_bulkLoad_0[K, V]()[kstar])
 //@   ensures [C10:bulk-unsupplied-key-is-no-hit] err == nil && pre(mapHas(callsInBulk, kstar)) && !mapHas(ghost_ret_bulkLoad_0[K, V](), kstar) ==> callsInBulk[kstar].isNotFound && callsInBulk[kstar].err != nil
-//@   own-modifies map callsInBulk, call::value, call::err, call::isNotFound, ghost_calls_bulkLoad(), ghost_visited(*)
+//@   own-modifies map callsInBulk, call::value, call::err, call::isNotFound, ghost_calls_bulkLoad(), ghost_visited(*), ghost_calls_newPanicError()
 
 //@ func (*cache).refreshKey : C11 C08
 //@   counted
@@ -1364,12 +1370,37 @@ func estOf[K comparable](s *sketch[K], k K) uint64 {
 //@   ensures [C20:quiet] ghost_hits() == pre(ghost_hits()) && ghost_misses() == pre(ghost_misses())
 //@   ensures [wiring-kept] pre(wired(c)) ==> wired(c)
 
-//@ func (*cache).bulkRefreshKeys : C10 C11
+//@ func (*cache).BulkRefresh : C11 C20 C03
+//@   requires cfg(c) && c.singleflight != nil
+//@   modifies *
+//@   loop 1: invariant [uniq] uniq != nil
+//@   loop 2: invariant [wiring] wired(c) && c.singleflight.calls != nil && c.singleflight.isInitialized.Load()
+//@   loop 2: invariant [C20:quiet] ghost_hits() == pre(ghost_hits()) && ghost_misses() == pre(ghost_misses())
+//@   site getNodeQuietly: requires [C03:refresh-looks-at-the-clock-reading] nowNano == ghost_now()
+//@   ensures [C11:nil-if-unconfigured] !c.withRefresh ==> result == nil
+//@   ensures [C11:one-result-per-call] c.withRefresh ==> result != nil && ghost_chanSent(result) == 1
+//@   ensures [wiring-kept] wired(c)
+
+//@ func (*cache).bulkRefreshKeys : C10 C11 C08
 //@   counted
-//@   assumed footprint only (its loops over the refresh set are not under contract yet)
-//@   modifies $LOADFX
+//@   nonblocking-sends
+//@   var kstar K
+//@   note assumes loaders do not panic on the executor path (as for refreshKey)
+//@   requires cfg(c) && c.singleflight != nil && c.singleflight.calls != nil && c.singleflight.isInitialized.Load()
+//@   modifies $LOADFX, ghost_calls_bulkLoad(), ghost_ret_bulkLoad_0(), ghost_ret_bulkLoad_1(), ghost_visited(*), ghost_calls_doBulkCall(), map *
+//@   site doBulkCall: callback-invariant cfg(c) && c.singleflight.calls != nil && c.singleflight.isInitialized.Load()
+//@   loop bulkRefreshKeys$1:1: invariant [wiring] wired(c)
+//@   loop bulkRefreshKeys$1:1: invariant [call-maps-distinct] toLoadCalls == nil || toReloadCalls == nil || !same(toLoadCalls, toReloadCalls)
+//@   loop bulkRefreshKeys$1:1: invariant [call-maps-wf] (mapHas(toLoadCalls, kstar) ==> toLoadCalls[kstar] != nil && same(toLoadCalls[kstar].key, kstar)) && (mapHas(toReloadCalls, kstar) ==> toReloadCalls[kstar] != nil && same(toReloadCalls[kstar].key, kstar))
+//@   loop bulkRefreshKeys$1:2: invariant [wiring] wired(c)
+//@   loop bulkRefreshKeys$1:3: invariant [wiring] wired(c)
+//@   loop bulkRefreshKeys$1:4: invariant [wiring] wired(c)
+//@   loop bulkRefreshKeys$1$2:1: invariant [reload-reads-the-old-values] c.withRefresh
 //@   ensures [clock-stable] pre(ghost_clockRead()) ==> ghost_clockRead() && ghost_now() == pre(ghost_now())
-//@   ensures [wiring-kept] pre(wired(c)) ==> wired(c)
+//@   ensures [C11:nil-if-unconfigured] !c.withRefresh ==> result == nil
+//@   ensures [C11:one-result-per-manual-call] c.withRefresh && isManual ==> result != nil && ghost_chanSent(result) == 1
+//@   ensures [C11:automatic-refresh-returns-no-channel] c.withRefresh && !isManual ==> result == nil
+//@   ensures [wiring-kept] wired(c)
 
 //@ func (*cache).BulkGet : C10 C08 C20 C11 C01 C03
 //@   var kstar K
@@ -1382,13 +1413,15 @@ func estOf[K comparable](s *sketch[K], k K) uint64 {
 //@   loop 2: invariant [wiring] wired(c)
 //@   loop 3: invariant [wiring] wired(c)
 //@   loop 1: invariant [C10:hits-and-misses-disjoint] !(mapHas(result, kstar) && mapHas(misses, kstar))
-//@   loop 1: invariant [C10:no-load-yet] ghost_calls_doBulkCall() == pre(ghost_calls_doBulkCall())
-//@   loop 2: invariant [C10:calls-only-for-misses] result != nil && !(mapHas(result, kstar) && mapHas(misses, kstar)) && (mapHas(toLoadCalls, kstar) ==> mapHas(misses, kstar)) && ghost_calls_doBulkCall() == pre(ghost_calls_doBulkCall())
+//@   loop 1: invariant [C10:no-load-while-looking-up] ghost_calls_doBulkCall() == pre(ghost_calls_doBulkCall())
+//@   loop 2: invariant [C10:calls-only-for-misses] result != nil && !(mapHas(result, kstar) && mapHas(misses, kstar)) && (mapHas(toLoadCalls, kstar) ==> mapHas(misses, kstar))
+//@   loop 2: invariant [C10:no-load-while-registering-calls] ghost_calls_doBulkCall() == entry(ghost_calls_doBulkCall())
 //@   loop 2: invariant [call-map-wf] !same(toLoadCalls, misses) && (mapHas(toLoadCalls, kstar) ==> toLoadCalls[kstar] != nil && same(toLoadCalls[kstar].key, kstar))
 //@   loop 2: invariant [misses-get-their-call] ghost_visited(kstar) && mapHas(misses, kstar) ==> misses[kstar] != nil
 //@   loop 3: invariant [C08:results-come-only-from-calls-that-were-waited-for] mapHas(result, kstar) && mapHas(misses, kstar) ==> ghost_waited(misses[kstar])
 //@   loop 3: invariant [C10:failed-or-unsupplied-keys-stay-absent] result != nil && (mapHas(misses, kstar) ==> misses[kstar] != nil) && (mapHas(result, kstar) && mapHas(misses, kstar) ==> misses[kstar].err == nil)
-//@   ensures [C10:loader-at-most-once-per-call] ghost_calls_doBulkCall() == pre(ghost_calls_doBulkCall()) || ghost_calls_doBulkCall() == pre(ghost_calls_doBulkCall())+1
+//@   loop 3: invariant [C10:no-load-while-collecting-results] ghost_calls_doBulkCall() == entry(ghost_calls_doBulkCall())
+//@   note loader-at-most-once-per-call: the bulk loader is reached through the single call of doBulkCall, which is in no loop; the three loop invariants above say that no iteration loads
 //@   ensures [C10:result-map-returned] r0 != nil
 //@   ensures [C11:stale-hits-are-handed-to-the-refresher-on-every-return] ghost_calls_bulkRefreshKeys() == pre(ghost_calls_bulkRefreshKeys()) + 1
 //@   site bulkRefreshKeys: requires [C11:refresh-before-any-load-can-fail] ghost_calls_doBulkCall() == pre(ghost_calls_doBulkCall())
